@@ -32,7 +32,7 @@ def cases(ctx):
     r = ctx.rnd
     t = ctx.tier == "thorough"
     lens = [0, 1, 252, 253, 254, 65535, 65536, 65537, 100000]
-    for i in range(70 if t else 8):
+    for i in range(400 if t else 8):
         x = r.choice(EDGE) if r.random() < 0.3 else r.randrange(1, ec.N)
         L = lens[i % len(lens)] if i < 2 * len(lens) and (t or i < 9) else r.choice([5, 20, 100, 300, r.randrange(0, 1000)])
         yield {"k": "bsm", "x": "%064x" % x, "compressed": r.random() < 0.6, "msg": gen.rbytes(r, L).hex(), "prefix": r.choice([0, 0x6F, r.randrange(256)]), "other": "%064x" % r.randrange(1, ec.N), "nonce": ("%064x" % r.randrange(1, ec.N)) if r.random() < 0.25 else None, "seed": r.getrandbits(30)}
